@@ -555,7 +555,9 @@ def laplacian_composition(chk):
                 parts[nu] = ps.range_sum(0, L - 1)
             if len(parts) == 3:
                 want = want + (parts[2] + parts[1] * (2 / rc[a]) - parts[0] / (rc[a] * rc[a]))
-        chk.add(f"interpolate_laplacian/post/one-sum-per-atom-and-radial-derivative{sfx}", [], z3.BoolVal(bool(complete and len(sites) == 6)), func=fq, meta={"replay": rep})
+        # how many reductions the code forms is the shape of this proof, not a statement of the property (merged sums are as good)
+        chk.add(f"interpolate_laplacian/lemma/one-sum-per-atom-and-radial-derivative{sfx}", [], z3.BoolVal(bool(complete and len(sites) == 6)), kind="lemma", func=fq,
+                meta={"replay": rep})
         if complete:
             chk.add(f"interpolate_laplacian/post/sum-over-atoms-of-the-radial-laplacian-of-each-harmonic-component{sfx}", hy + eqs + [CUT > 0], val == want, func=fq,
                     meta={"replay": rep}, assumptions=asm)
